@@ -282,7 +282,9 @@ def runOp (ds : DS) (env : Env) (j : Json) (o : ObsSt) : E (List Node × List (S
     let outs := Sync.outcomes env cfg n.led now resps
     let mode :=
       if (Sync.selectionSet ch).isEmpty then "kept-none-selected"
-      else match outs with
+      -- the mode of the outcome the implementation took (map order decides between admissible selections); the
+      -- first admissible one when none matches (a DIFF is then reported anyway)
+      else match (match outs.find? (fun l => l.blocks.map env.hash == o.chain) with | some l => [l] | none => outs) with
         | l :: _ => if l.blocks.map env.hash == n.led.blocks.map env.hash then "kept-same"
                     else if ch.isFork then "resync"
                     else if l.blocks.length > n.led.blocks.length then "extension" else "tipswap"
@@ -306,7 +308,8 @@ def runOp (ds : DS) (env : Env) (j : Json) (o : ObsSt) : E (List Node × List (S
         (if isCand && !inMaj then [s!"C06 adopted-chain-on-a-branch-shared-by-fewer-than-half-of-the-candidates"] else []) ++
         (if isCand && inMaj && younger then [s!"C06 adopted-chain-validator-waited-less impl={ageOf} max={ch.maxAge}"] else [])
     pure (outs.map (fun l => { n with led := l }),
-          [("sync", mode), ("cands", toString ch.cands.length), ("survivors", toString ch.survivors.length),
+          [("sync", mode), ("fork", toString ch.isFork),
+           ("mustkeep", toString (outs.all (fun l => sameNode env { n with led := l } n))), ("cands", toString ch.cands.length), ("survivors", toString ch.survivors.length),
            ("outcomes", toString outs.length)] ++ c06.map (fun p => ("prop", p)))
   | "regsync" =>
     let invalid ← jstrList (jgetD j "invalid")
@@ -376,16 +379,25 @@ def step (ds : DS) (j : Json) : E (DS × Out) := do
   -- content (hashes are recomputed from the served content after every operation); incremental adoption leaves
   -- every block below the fork point untouched
   let preChain := (getNode ds name).led.blocks.map envLo.hash
-  let syncMode := ((info.find? (fun kv => kv.1 == "sync")).map (·.2)).getD ""
+  let syncFork := ((info.find? (fun kv => kv.1 == "fork")).map (·.2)).getD "" == "true"
   let c12 : List String :=
     (props.filter (fun p => p.startsWith "C04 prev-hash")).map (fun p => "C12 served-chain-not-hash-linked " ++ (p.drop 14).toString) ++
     (if op != "sync" then
        (if o.chain.take preChain.length != preChain then
           [s!"C12 chained-block-altered-by-{op} impl={short o.chain} before={short preChain}"] else [])
-     else if syncMode != "resync" && o.chain.take (preChain.length - 1) != preChain.dropLast then
+     else if !syncFork && o.chain.take (preChain.length - 1) != preChain.dropLast then
        [s!"C12 incremental-adoption-altered-a-block-below-the-fork-point impl={short o.chain} before={short preChain}"]
      else [])
-  let propsAll := if ds.monitorsOn then props ++ c12 else props
+  -- C13 monitor: when every admissible outcome of the round is "ledger unchanged" (no verified better chain was
+  -- offered), the implementation's chain, outputs, registered and pending addresses and pool must be as before
+  let mustKeep := ((info.find? (fun kv => kv.1 == "mustkeep")).map (·.2)).getD "" == "true"
+  let c13 : List String :=
+    if op == "sync" && mustKeep then
+      match compareState envLo (getNode ds name) o with
+      | [] => []
+      | d :: _ => [s!"C13 ledger-changed-although-no-verified-better-chain-was-offered impl={d}"]
+    else []
+  let propsAll := if ds.monitorsOn then props ++ c12 ++ c13 else props
   let notes := ds.notes.map (fun s => "C15 " ++ s) ++
     (if ds.monitorsOn then (info.filter (fun kv => kv.1 == "prop")).map (·.2) else [])
   let info := info.filter (fun kv => kv.1 != "prop")
